@@ -60,6 +60,22 @@ open Scalar
 @[simp] theorem log_eq (a : ℝ) : Scalar.log a = Real.log a := rfl
 @[simp] theorem tanh_eq (a : ℝ) : Scalar.tanh a = Real.tanh a := rfl
 @[simp] theorem pow_eq (a b : ℝ) : Scalar.pow a b = a ^ b := rfl
+@[simp] theorem sin_eq (a : ℝ) : Scalar.sin a = Real.sin a := rfl
+@[simp] theorem cos_eq (a : ℝ) : Scalar.cos a = Real.cos a := rfl
+@[simp] theorem tan_eq (a : ℝ) : Scalar.tan a = Real.tan a := rfl
+@[simp] theorem sinh_eq (a : ℝ) : Scalar.sinh a = Real.sinh a := rfl
+@[simp] theorem cosh_eq (a : ℝ) : Scalar.cosh a = Real.cosh a := rfl
+@[simp] theorem sqrt_eq (a : ℝ) : Scalar.sqrt a = Real.sqrt a := rfl
+@[simp] theorem sin_fn : (Scalar.sin : ℝ → ℝ) = Real.sin := rfl
+@[simp] theorem cos_fn : (Scalar.cos : ℝ → ℝ) = Real.cos := rfl
+@[simp] theorem sinh_fn : (Scalar.sinh : ℝ → ℝ) = Real.sinh := rfl
+@[simp] theorem cosh_fn : (Scalar.cosh : ℝ → ℝ) = Real.cosh := rfl
+@[simp] theorem exp_fn : (Scalar.exp : ℝ → ℝ) = Real.exp := rfl
+@[simp] theorem tanh_fn : (Scalar.tanh : ℝ → ℝ) = Real.tanh := rfl
+@[simp] theorem mul_fn : (Scalar.mul : ℝ → ℝ → ℝ) = fun a b => a * b := rfl
+@[simp] theorem div_fn : (Scalar.div : ℝ → ℝ → ℝ) = fun a b => a / b := rfl
+@[simp] theorem add_fn : (Scalar.add : ℝ → ℝ → ℝ) = fun a b => a + b := rfl
+@[simp] theorem sub_fn : (Scalar.sub : ℝ → ℝ → ℝ) = fun a b => a - b := rfl
 @[simp] theorem lt_eq (a b : ℝ) : Scalar.lt a b = decide (a < b) := rfl
 @[simp] theorem le_eq (a b : ℝ) : Scalar.le a b = decide (a ≤ b) := rfl
 theorem half_eq : (Scalar.half : ℝ) = 1 / 2 := by simp [Scalar.half, Scalar.ofSci]; norm_num
